@@ -24,7 +24,7 @@ import (
 
 // C16 — regex functions match Go regexp; pattern cache is exact, bounded, thread-safe.
 
-const ruleC16 = "rapid regex: (s, p, r) with p from a regex grammar (literals, classes, '.', * + ? {m,n}, capturing groups up to 12 so that $10 vs $1 matters, non-capturing groups, alternation, anchors, (?i)), s over a small alphabet, sometimes with multi-byte characters (a literal, the string-value of a node, or - for the empty string - the empty node-set), r made of literal characters and $n with 1 <= n <= groups, sometimes directly followed by a digit or a letter; plus constant invalid patterns, plus 'pair' cases: matches() with two resembling patterns (suffix/prefix added, one character changed, upper-cased, or independent) in one expression, each answer belonging to its own pattern. Oracle: matches(s,p) = regexp.MustCompile(p).MatchString(s); replace(s,p,r) = ReplaceAllString with every $n read as group n (longest valid group number), cross-checked by a manual expansion from FindAllStringSubmatchIndex; an invalid constant pattern in matches() is a Compile error. rapid cache histories: a cache from NewLoadingCache with capacity 0..5 and a counting, sometimes-failing load function; actions get(key) over a key alphabet larger than the capacity, swapping xpath.RegexpCache for a small custom cache while matches()/replace() are evaluated, and (race build) a block of g goroutines x keys. Invariants after every step: the value returned is the load of exactly the requested key; entries <= capacity when capacity > 0; a cached key is answered without loading and with the stored value; a missing key is loaded exactly once; a failed load is not remembered (the next get loads again); no data race. Non-trivial: regex case with >= 1 group reference or a match; history that crosses the capacity boundary (a reset happened) or contains a failed load followed by a retry; distinct by (s,p,r) / (capacity, history)."
+const ruleC16 = "rapid regex: (s, p, r) with p from a regex grammar (literals, classes, '.', * + ? {m,n}, capturing groups up to 12 so that $10 vs $1 matters, non-capturing groups, alternation, anchors, (?i)), s over a small alphabet, sometimes with multi-byte characters (a literal, the string-value of a node, or - for the empty string - the empty node-set), r made of literal characters and $n with 1 <= n <= groups, sometimes directly followed by a digit or a letter; plus constant invalid patterns, plus 'pair' cases: matches() with two resembling patterns (suffix/prefix added, one character changed, upper-cased, or independent) in one expression, each answer belonging to its own pattern, plus 'dynamic' cases: 2-5 items carrying their own subject, pattern, replacement and (precomputed) expected result as attributes, judged by one compiled //i[matches(@s, string(@p))] / //i[replace(@s, string(@p), string(@r)) = @e]. Oracle: matches(s,p) = regexp.MustCompile(p).MatchString(s); replace(s,p,r) = ReplaceAllString with every $n read as group n (longest valid group number), cross-checked by a manual expansion from FindAllStringSubmatchIndex; an invalid constant pattern in matches() is a Compile error. rapid cache histories: a cache from NewLoadingCache with capacity 0..5 and a counting, sometimes-failing load function; actions get(key) over a key alphabet larger than the capacity, swapping xpath.RegexpCache for a small custom cache while matches()/replace() are evaluated, and (race build) a block of g goroutines x keys. Invariants after every step: the value returned is the load of exactly the requested key; entries <= capacity when capacity > 0; a cached key is answered without loading and with the stored value; a missing key is loaded exactly once; a failed load is not remembered (the next get loads again); no data race. Non-trivial: regex case with >= 1 group reference or a match; history that crosses the capacity boundary (a reset happened) or contains a failed load followed by a retry; distinct by (s,p,r) / (capacity, history)."
 
 var (
 	uC16Regex = harness.NewUnit("C16", "rapid-regex", ruleC16)
@@ -37,6 +37,7 @@ func init() {
 		_, f := oracleC16Regex(l)
 		return f
 	})
+	harness.RegisterOracle("C16/dynamic", oracleC16Dynamic)
 	harness.RegisterOracle("C16/cache", func(l *harness.Live) *harness.Failure {
 		_, f := oracleC16Cache(l)
 		return f
@@ -264,7 +265,11 @@ var invalidPatterns = []string{"(", "a(b", "[a", "a{2,1}", "*a", "(?P<n>a", `\`,
 func TestC16Regex(t *testing.T) {
 	runRapid(t, uC16Regex, func(rt *rapid.T) {
 		g := &rxGen{rt: rt}
-		mode := rapid.SampledFrom([]string{"matches", "matches", "replace", "replace", "replace", "invalid", "pair"}).Draw(rt, "mode")
+		mode := rapid.SampledFrom([]string{"matches", "matches", "replace", "replace", "replace", "invalid", "pair", "dynamic"}).Draw(rt, "mode")
+		if mode == "dynamic" {
+			c16Dynamic(rt)
+			return
+		}
 		p := g.pattern()
 		if mode == "invalid" {
 			p = rapid.SampledFrom(invalidPatterns).Draw(rt, "badpat")
@@ -354,6 +359,85 @@ func TestC16Regex(t *testing.T) {
 			return map[string]interface{}{"expr": l.Expr, "expected": info.want}
 		})
 	})
+}
+
+// c16Dynamic: patterns and replacements that are not constants but come from the
+// document and differ from node to node, inside ONE compiled expression:
+// //i[matches(@s, string(@p))] selects exactly the items whose own pattern matches
+// their own subject, //i[replace(@s, string(@p), string(@r)) = @e] (e precomputed
+// with Go's regexp) selects every item. Whatever an implementation remembers from
+// one evaluation (a compiled pattern, an expanded template) must not leak into the next.
+func c16Dynamic(rt *rapid.T) {
+	n := rapid.IntRange(2, 5).Draw(rt, "items")
+	root := &xdoc.Node{Kind: xpath.RootNode}
+	r := &xdoc.Node{Kind: xpath.ElementNode, Local: "r"}
+	root.Kids = []*xdoc.Node{r}
+	type item struct{ s, p, r, e string }
+	var items []item
+	var wantMatch []int
+	distinct := map[string]bool{}
+	for i := 0; i < n; i++ {
+		g := &rxGen{rt: rt}
+		p := g.pattern()
+		if i > 0 && rapid.IntRange(0, 3).Draw(rt, "samepat") == 0 {
+			p = items[i-1].p // the same pattern twice in a row is a case of its own
+		}
+		re, err := regexp.Compile(p)
+		if err != nil || strings.ContainsAny(p, "'\"") {
+			rt.Skip("pattern not usable")
+		}
+		s := rapid.StringOfN(rapid.SampledFrom([]rune("aabbc1A ")), 0, 6, -1).Draw(rt, "s")
+		tmplSrc := rapid.SampledFrom([]string{"x", "$1", "$1x", "[$1]", "$2$1", "$10", "$1$1", ""}).Draw(rt, "r")
+		tmpl, _ := expandTemplate(tmplSrc, re.NumSubexp())
+		it := item{s, p, tmplSrc, re.ReplaceAllString(s, tmpl)}
+		items = append(items, it)
+		distinct[p] = true
+		el := &xdoc.Node{Kind: xpath.ElementNode, Local: "i"}
+		for _, kv := range [][2]string{{"s", it.s}, {"p", it.p}, {"r", it.r}, {"e", it.e}} {
+			el.Attrs = append(el.Attrs, &xdoc.Node{Kind: xpath.AttributeNode, Local: kv[0], Value: kv[1]})
+		}
+		r.Kids = append(r.Kids, el)
+	}
+	doc := xdoc.NewDoc(root)
+	var all []int
+	for i, el := range r.Kids {
+		all = append(all, el.ID)
+		if regexp.MustCompile(items[i].p).MatchString(items[i].s) {
+			wantMatch = append(wantMatch, el.ID)
+		}
+	}
+	for _, c := range []struct {
+		expr string
+		want []int
+	}{
+		{"//i[matches(@s, string(@p))]", wantMatch},
+		{"//i[replace(@s, string(@p), string(@r)) = @e]", all},
+		{"//i[matches(string(@s), concat(@p, ''))][replace(string(@s), concat(@p, ''), concat(@r, '')) = @e]", wantMatch},
+	} {
+		l := &harness.Live{Property: "C16", Check: "C16/dynamic", Doc: doc, Ctx: doc.Root, Expr: c.expr, Params: map[string]interface{}{"want": c.want}}
+		if f := oracleC16Dynamic(l); f != nil {
+			harness.Report(rt, uC16Regex, l, f)
+		}
+	}
+	uC16Regex.Case(harness.Mix(doc.Hash(), 16), len(distinct) >= 2, []string{"dynamic", fmt.Sprintf("patterns:%d", len(distinct))}, func() interface{} {
+		return map[string]interface{}{"doc": doc.String(), "expr": "//i[matches(@s, string(@p))]", "expected": fmt.Sprint(wantMatch)}
+	})
+}
+
+func oracleC16Dynamic(l *harness.Live) *harness.Failure {
+	want := intsParam(l, "want")
+	ids, f := engineSelect(l)
+	if f != nil {
+		return f
+	}
+	got := harness.SetOf(ids)
+	if want == nil {
+		want = []int{}
+	}
+	if !harness.EqualInts(got, want) {
+		return harness.Failf(describe(l.Doc, want), describe(l.Doc, got), "patterns/replacements taken from each item: every item must be judged by its own pattern (expected set computed with Go's regexp)")
+	}
+	return nil
 }
 
 // ---------------------------------------------------------------------------
